@@ -58,7 +58,12 @@ func TestCrowd(t *testing.T) {
 				defer runtime.GOMAXPROCS(runtime.GOMAXPROCS(s.Procs))
 			}
 			msg := rig.Bubble(t, func() {
-				p := rig.StartProxy(rig.ProxyOpts{IdleTimeout: 60e9, TLSHandshakeTimeout: 10e9})
+				// the backend answers every seventh request with a status code beyond the registered range (600, 799, 999):
+				// a three-digit code is a status code (RFC 9110 15), whatever tables an implementation keeps
+				p := rig.StartProxy(rig.ProxyOpts{IdleTimeout: 60e9, TLSHandshakeTimeout: 10e9, BackendRespond: func(w http.ResponseWriter, r *http.Request, rec *rig.Recorded) {
+					w.WriteHeader(crowdStatus(r.URL.Path))
+					w.Write([]byte("backend-ok"))
+				}})
 				defer p.Stop()
 				var ccs []*rig.ClientConn
 				for i := 0; i < s.Clients; i++ {
@@ -108,7 +113,7 @@ func TestCrowd(t *testing.T) {
 								hdrs = append(hdrs, [2]string{fmt.Sprintf("x-crowd-%d-%d-%d", i, j, k), fmt.Sprintf("v-%d-%d-%d", i, j, k)})
 							}
 							path := fmt.Sprintf("/crowd/%d/%d", i, j)
-							if ex := cc.Do(rig.ReqSpec{Method: "GET", Path: path, Authority: "example.com", Headers: hdrs}); ex.Err != "" || ex.Status != 200 {
+							if ex := cc.Do(rig.ReqSpec{Method: "GET", Path: path, Authority: "example.com", Headers: hdrs}); ex.Err != "" || ex.Status != crowdStatus(path) {
 								mu.Lock()
 								fails = append(fails, fmt.Sprintf("%s: status %d err %q", path, ex.Status, ex.Err))
 								mu.Unlock()
@@ -168,4 +173,12 @@ func TestCrowd(t *testing.T) {
 			colCrowd.Case(fmt.Sprintf("%+v", s), s.Clients >= 3 && s.Names >= 5, s, cl...)
 			return nil
 		}})
+}
+
+func crowdStatus(path string) int {
+	var i, j int
+	if _, err := fmt.Sscanf(path, "/crowd/%d/%d", &i, &j); err == nil && (i+j)%7 == 6 {
+		return []int{600, 799, 999}[(i+j)/7%3]
+	}
+	return 200
 }
